@@ -233,16 +233,28 @@ theorem connAbort_done {t : State} (h : AbortReady t) : AbortDone t (connAbort t
   -- registered objects
   have hreg : ∀ i ∈ t.registered, ∀ k, (t.objs i).oid = some k →
       (t.added.get k = some i → ((connAbort t).objs i).oid = none) ∧
-      (t.added.get k = none → ((connAbort t).objs i).status = .ghost ∨ ((connAbort t).objs i).oid = none) := by
+      (t.added.get k = none → t.creating.has k = false →
+        ((connAbort t).objs i).status = .ghost ∨ ((connAbort t).objs i).oid = none) := by
     intro i hi k hk
     obtain ⟨e1, e2⟩ := eA i hi k hk
     constructor
     · intro ha
       rw [shAX.noneKept i (e1 ha)]; exact e1 ha
-    · intro ha
-      rcases e2 ha with h1 | h1
+    · intro ha hncr
+      rcases e2 ha hncr with h1 | h1
       · exact Or.inl (shAX.ghostKept i h1)
       · right; rw [shAX.noneKept i h1]; exact h1
+  have haddX : (connAbort t).added = [] := by
+    apply Map.eq_nil_of_get_none
+    intro k
+    cases hc : (connAbort t).added.get k with
+    | none => rfl
+    | some j =>
+      exfalso
+      have h1 := sh.added k j hc
+      have := (hreg j (h.addedReg k j h1) k (hS.addedS k j h1).1).1 h1
+      have h3 := (hSX.addedS k j hc).1
+      rw [this] at h3; cases h3
   -- a disowned object was new
   have hdis : ∀ j k, (t.objs j).oid = some k → ((connAbort t).objs j).oid = none →
       t.added.get k = some j ∨ (t.cache.get k = some j ∧ crKey t k) := by
@@ -263,17 +275,7 @@ theorem connAbort_done {t : State} (h : AbortReady t) : AbortDone t (connAbort t
       rw [hX] at this; cases this
     · exact Or.inl hkn
   refine ⟨⟨hSX, sh⟩, connAbort_sp t, rfl, rfl, ?_, rfl, ?_, ?_, ?_, connAbort_sps t, connAbort_shared t, ?_⟩
-  · -- added
-    apply Map.eq_nil_of_get_none
-    intro k
-    cases hc : (connAbort t).added.get k with
-    | none => rfl
-    | some j =>
-      exfalso
-      have h1 := sh.added k j hc
-      have := (hreg j (h.addedReg k j h1) k (hS.addedS k j h1).1).1 h1
-      have h3 := (hSX.addedS k j hc).1
-      rw [this] at h3; cases h3
+  · exact haddX
   · -- noChanged
     intro j hch
     have hts : (t.objs j).status = .changed := by
@@ -286,7 +288,20 @@ theorem connAbort_done {t : State} (h : AbortReady t) : AbortDone t (connAbort t
     obtain ⟨e1, e2⟩ := hreg j hr k hk
     have hcases : ((connAbort t).objs j).status = .ghost ∨ ((connAbort t).objs j).oid = none := by
       cases ha : t.added.get k with
-      | none => exact e2 ha
+      | none =>
+        cases hcr : t.creating.has k with
+        | false => exact e2 ha hcr
+        | true =>
+          right
+          rcases sh.oid j with h1 | h1
+          · exfalso
+            have hoid : ((connAbort t).objs j).oid = some k := by rw [h1]; exact hk
+            have hkn := hSX.known j k hoid
+            simp only [List.not_mem_nil, or_false, haddX, Map.get_nil] at hkn
+            rcases hkn with h2 | h2
+            · rw [hunc k (Or.inl hcr)] at h2; cases h2
+            · cases h2
+          · exact h1.1
       | some j' =>
         have := hS.inj j' j k (hS.addedS k j' ha).1 hk
         subst this
